@@ -356,10 +356,95 @@ func runHook(f []string) string {
 	return sb.String()
 }
 
+type OuterCfg struct {
+	B     int   `config:"b"`
+	Inner Iface `config:"inner"`
+}
+
+// hookn <req N|F1> <k>: a plugin whose config contains a nested plugin, decoded by the real hooks:
+// {type: outer, b: 5, inner: {type: inner, b: 6}}.  Every product must get its own, freshly
+// decoded config, i.e. its own freshly constructed inner plugin (the same config data is decoded
+// again on every call of the factory).
+func runHookNested(f []string) string {
+	if len(f) != 3 {
+		return "unknown-case"
+	}
+	req := f[1]
+	k, _ := strconv.Atoi(f[2])
+	if !hooksAdded {
+		pluginconfig.AddHooks()
+		hooksAdded = true
+	}
+	hookSeq++
+	inner := fmt.Sprintf("hc18-inner-%d", hookSeq)
+	outer := fmt.Sprintf("hc18-outer-%d", hookSeq)
+	r := &rec{cerr: true, ffail: map[int]bool{}, cfail: map[int]bool{}, pfail: map[int]bool{}}
+	register.RegisterPtr((*Iface)(nil), inner, r.constructor("P", "P", implT), r.defaultFn("P", "V"))
+	register.RegisterPtr((*Iface)(nil), outer, func(c OuterCfg) (Iface, error) {
+		n := r.nCtor
+		r.nCtor++
+		in := "nil"
+		if im, ok := c.Inner.(*Impl); ok && im != nil {
+			in = fmt.Sprintf("c%d", im.ctor)
+		}
+		arg := fmt.Sprintf("outer=%d/%s", c.B, in)
+		r.ev(fmt.Sprintf("C%d:%s", n, arg))
+		return &Impl{ctor: n, prod: -1, arg: arg}, nil
+	})
+	mkdata := func() map[string]interface{} {
+		return map[string]interface{}{"x": map[string]interface{}{"type": outer, "b": 5,
+			"inner": map[string]interface{}{"type": inner, "b": 6}}}
+	}
+	var sb strings.Builder
+	if req == "N" {
+		sb.WriteString("new")
+		for i := 0; i < k; i++ {
+			out := guarded(func() string {
+				var h struct {
+					X Iface `config:"x"`
+				}
+				if err := config.Decode(mkdata(), &h); err != nil {
+					return "err:decode:" + strings.ReplaceAll(err.Error(), "\n", " ")
+				}
+				return describe(h.X, nil)
+			})
+			sb.WriteString(" | " + r.take() + " => " + out)
+		}
+		return sb.String()
+	}
+	var h struct {
+		X func() (Iface, error) `config:"x"`
+	}
+	cout := guarded(func() string {
+		if err := config.Decode(mkdata(), &h); err != nil {
+			return "err:decode:" + strings.ReplaceAll(err.Error(), "\n", " ")
+		}
+		return "ok"
+	})
+	sb.WriteString("fac " + r.take() + " => " + cout)
+	if cout != "ok" {
+		return sb.String()
+	}
+	for i := 0; i < k; i++ {
+		out := guarded(func() string {
+			p, err := h.X()
+			if err != nil {
+				return "err:" + strings.ReplaceAll(err.Error(), "\n", " ")
+			}
+			return describe(p, nil)
+		})
+		sb.WriteString(" | " + r.take() + " => " + out)
+	}
+	return sb.String()
+}
+
 func runCase(c string) string {
 	f := strings.Split(c, " ")
 	if f[0] == "hook" {
 		return runHook(f)
+	}
+	if f[0] == "hookn" {
+		return runHookNested(f)
 	}
 	if len(f) != 13 || f[0] != "c18" {
 		return "unknown-case"
@@ -538,6 +623,11 @@ func gen(r *vh.Rand, tier string) []string {
 					out = append(out, fmt.Sprintf("hook %s %s %s %d %d", cfg, def, req, 7+k, k))
 				}
 			}
+		}
+	}
+	for _, req := range []string{"N", "F1"} {
+		for _, k := range []int{1, 2, 3, 5} {
+			out = append(out, fmt.Sprintf("hookn %s %d", req, k))
 		}
 	}
 	return out
